@@ -6,6 +6,8 @@ from symx import loader, env
 from symx.proto import setup_hash_axioms, outcome
 
 PID = "C17"
+TECHNIQUE = 'symbolic execution of the two transcript functions with SHA-256 uninterpreted; z3 decides equality with the reference term, symmetry, and injectivity under no-collision axioms'
+LEVEL_NOTE = 'no collisions among the <= 10 hash applications of a query; argument lengths from stated sets'
 EXPLANATION = (
     "The real finalize_SPAKE2 and finalize_SPAKE2_symmetric (re-imported from /repo) run on symbolic byte strings of "
     "the stated lengths with SHA-256 as an uninterpreted function per input length. The solver proves (a) equality "
